@@ -184,7 +184,7 @@ def stress(rng: random.Random, nthreads: int, ncalls: int, nprints: int) -> tupl
     return '\n'.join(lines) + '\n', owners
 
 
-def concurrent(rng: random.Random, nthreads: int, ntasks: int, nested: bool = False, pool: bool = False) -> tuple[str, dict]:
+def concurrent(rng: random.Random, nthreads: int, ntasks: int, nested: bool = False, pool: bool = False, join: bool = True) -> tuple[str, dict]:
     """A program with distinct worker functions per thread / task. Returns (source, {entity tag: function name}).
     With `pool`, the tasks also hand work to executor threads (`asyncio.to_thread`), which are reused."""
     lines = ['import threading, asyncio', '']
@@ -193,11 +193,17 @@ def concurrent(rng: random.Random, nthreads: int, ntasks: int, nested: bool = Fa
         lines += ['def pool_work(k):', '    w = k * 2', "    print('W', k, threading.current_thread().name)", '    return w', '']
     for i in range(nthreads):
         n = rng.randint(1, 3)
-        lines += [f'def thread_body_{i}():', f'    t{i} = 0', f'    for k in range({n}):', f'        t{i} += k', f"    print('T{i}', t{i})", '']
+        lines += [f'def thread_body_{i}():', f'    t{i} = 0'] + ([] if join else ['    import time', '    time.sleep(0.05)']) + [f'    for k in range({n}):', f'        t{i} += k', f"    print('T{i}', t{i})", '']
         owners[f'T{i}'] = f'thread_body_{i}'
     for i in range(ntasks):
         n = rng.randint(1, 3)
-        lines += [f'async def task_body_{i}():', f'    c{i} = 0', f'    for k in range({n}):', f'        await asyncio.sleep(0)', f'        c{i} += k']
+        lines += [f'async def task_body_{i}():', f'    c{i} = 0']
+        if rng.random() < 0.5:
+            # a line assembled from two partial writes with a suspension in between: other tasks of the same thread print meanwhile
+            lines += [f"    print('A{i}', 'part', end=' ')"]
+        else:
+            lines += [f"    print('A{i}', 'whole', end=' ')", f"    print('A{i}', 'line')"]
+        lines += [f'    for k in range({n}):', f'        await asyncio.sleep(0)', f'        c{i} += k']
         if pool:
             lines += [f'    c{i} += await asyncio.to_thread(pool_work, {i})', f'    c{i} += await asyncio.to_thread(pool_work, {i + 10})']
         lines += [f"    print('A{i}', c{i})", '']
@@ -213,5 +219,8 @@ def concurrent(rng: random.Random, nthreads: int, ntasks: int, nested: bool = Fa
     lines += ['for t in ths:', '    t.start()', 'm = 5']
     if ntasks:
         lines += ['asyncio.run(amain())']
-    lines += ['for t in ths:', '    t.join()', "print('main', m)"]
+    if join:
+        lines += ['for t in ths:', '    t.join()', "print('main', m)"]
+    else:
+        lines += ["print('main', m)"]          # the threads outlive the main script: the run ends when they do
     return '\n'.join(lines) + '\n', owners
